@@ -128,7 +128,7 @@ OWNERS = {
     ("node", "INSERT"): {"trellis.Trellis.create"},
     ("node", "DELETE"): {"trellis.Trellis.delete_detached"},
     ("dependency", "INSERT"): {"trellis.Node.add_source"},
-    ("dependency", "DELETE"): {"trellis.Node.del_sources", "trellis.Node.del_all_sources", "trellis.Node.del_all_sinks"},
+    ("dependency", "DELETE"): {"trellis.Node.del_sources", "trellis.Node.del_all_sources"},
     ("dynamic_dep", "INSERT"): {"workflow.Workflow.amend_step"},
     ("file", "state"): {"file.File.set_state", "file.File.initialize_row", "workflow.Workflow.update_file_hashes", "finalize.revert_optional_steps"},
     ("file", "hash"): {"workflow.Workflow.update_file_hashes", "finalize.revert_optional_steps"},
@@ -416,9 +416,15 @@ def rule_whitelist(ctx):
         for p in s.params:
             if isinstance(p, tuple):
                 excl |= set(p)
-    txt = " ".join(t for s in rs for t in s.full_texts())
-    ok = excl == {FSv["PLANNED"], FSv["VOLATILE"]} and re.search(r"state NOT IN \(\?, \?\) AND NOT detached", txt) is not None
-    ctx.check(ok, "startup.rescan_files", "rescans attached files except PLANNED/VOLATILE", f"selection excludes {sorted(excl)}: states outside the EXTERNAL/CONFIRMED rows would be handed in", "attached, not PLANNED/VOLATILE")
+    # every state the rescan hands in has a transition row for the cause it is handed in with
+    trans = ctx.prog.fold("workflow", "_HASH_TRANSITIONS")
+    HC = ctx.prog.enum("HashUpdateCause")
+    have = {(c, st_) for (c, st_, _chg) in trans}
+    attached_only = any(re.search(r"\bNOT\s+(node\s*\.\s*)?detached\b", t) for s_ in rs for t in s_.full_texts())
+    # an UNDECLARED node is always detached (trigger file_check_undeclared_detached_*)
+    selected = [m for m in FS if m.value not in excl and not (attached_only and m == FS.UNDECLARED)]
+    bad = [m.name for m in selected if ((HC.CONFIRMED if m == FS.UNCONFIRMED else HC.EXTERNAL), m) not in have]
+    ctx.check(bool(excl) and not bad, "startup.rescan_files", "every state handed to the startup rescan has a transition for its cause", f"states {bad} have no row in _HASH_TRANSITIONS for the cause rescan_files uses: update_file_hashes raises ConsistencyError and the director dies at startup", f"selected {sorted(m.name for m in selected)}")
     rf = ctx.prog.func("startup.rescan_files")
     src = re.sub(r"\s+", " ", ast.unparse(rf.node))
     ok = "HashUpdateCause.CONFIRMED if FileState(state) == FileState.UNCONFIRMED else HashUpdateCause.EXTERNAL" in src
